@@ -311,7 +311,7 @@ class Spec(PropSpec):
     props_file = "C17.v"
     coq_targets = ["C17.vo"]
     theorems = ["bind_ok_iff", "overlap_is_the_conflict_check", "port0_free_everywhere", "port0_none_iff_exhausted",
-                "port0_first_free_from_cursor", "close_frees", "close_releases", "udp_demux", "tcp_demux_rule", "fabric_route",
+                "port0_first_free_from_cursor", "close_frees", "close_releases", "close_listener_spares_others", "udp_demux", "tcp_demux_rule", "fabric_route",
                 "egress_keeps_local_traffic_inside", "table_describes_live_sockets",
                 "bind_conflict_is_with_a_live_socket", "bind_ok_iff_live", "c17_nonvacuous"]
     consts = NETPURE_CONSTS
